@@ -60,6 +60,8 @@ type Exec struct {
 	usedContracts map[string]bool
 	aborted bool
 	trackCache map[*Contract]map[string]bool
+	replayBase *ReplayInfo
+	replayCur  *ReplayInfo
 	callCovers bool // thorough tier: consistency cover before/after every contract application
 	errSiteCache map[*Contract]map[string]bool
 	retSiteCache map[*Contract]map[string]bool
@@ -259,6 +261,12 @@ func (ex *Exec) check(st *State, fr *Frame, class, label string, goal Term, prop
 	}
 	c := &Check{Name: name, Class: class, Fn: funcKey(ex.top), Props: props, Goal: goal.S, Trivial: goal.B == 1,
 		Info: info, Src: src, Path: strings.Join(st.path, ",")}
+	switch class {
+	case "post":
+		c.Replay = ex.replayCur
+	case "safety":
+		c.Replay = ex.replayBase
+	}
 	st.script = append(st.script, Cmd{Check: c})
 }
 
